@@ -6,8 +6,10 @@ PID = "C09"
 GEN = []
 LEAN = ["Ymq.Props.C09"]
 AUDIT = "Ymq.Audit.C09"
-THEOREMS = ["Ymq.C09.reduce64_inv", "Ymq.C09.step_gcd", "Ymq.C09.gcd_internal_spec", "Ymq.C09.gcd_terminates", "Ymq.C09.big_gcd_spec",
-            "Ymq.C09.inv_mod_spec", "Ymq.C09.mulword_no_panic", "Ymq.C09.no_panic_partial", "Ymq.C09.no_panic_ext_partial"]
+THEOREMS = ["Ymq.C09.reduce64_inv", "Ymq.C09.step_gcd", "Ymq.C09.gcd_internal_spec", "Ymq.C09.gcd_terminates",
+            "Ymq.C09.big_gcd_spec", "Ymq.C09.inv_mod_spec", "Ymq.C09.mulword_no_panic", "Ymq.C09.no_panic",
+            "Ymq.C09.no_panic_ext", "Ymq.C09.no_panic_ext_any_width", "Ymq.C09.no_panic_ext_domain_sharp",
+            "Ymq.C09.inv_mod_no_panic"]
 PROFILES = ["release", "chk"]
 TIMEOUT = 20.0
 W = 1 << 64
@@ -33,14 +35,16 @@ HYPOTHESES = []
 CLAIM = ("Lean theorems for all inputs about a word-exact model of arith_gcd.rs: reduce64 keeps its linear relations, "
          "determinant +-1 and the 2^36 bound without any overflow (all u64 pairs); a unimodular step preserves the gcd; "
          "whenever gcd_internal returns, d = gcd(n,p) and u*n + v*p = d; an explicit fuel bound (x*y shrinks by 3/4 per "
-         "iteration); big_gcd is total on all of BUint<N> and returns the gcd; inv_mod returns a reduced inverse or the "
-         "non-trivial gcd (all n, p incl. p = 1, n = 0); in the extended variant no panic site other than the BInt<N> "
-         "cofactor range checks is reachable (partial: the cofactor bound itself is validated by the runs only); "
-         "the model is tied to the real code by exact (d,u,v) comparison in both build profiles and every implementation "
-         "answer is judged by a Python big-integer oracle (math.gcd, Bezout identity, range of the inverse).")
+         "iteration); big_gcd never panics on all of BUint<N> and returns the gcd; for operands below 2^(64N-12) (1012 / "
+         "500 / 244 bits: the supported range) gcd_internal<N,true> and inv_mod never panic - no BInt<N> cofactor "
+         "operation overflows - and return the gcd with Bezout cofactors resp. the reduced inverse or the non-trivial "
+         "gcd (all n, p incl. p = 1, n = 0); a 250-bit pair (64N-6 bits, N = 4) is proved to overflow, so the domain is "
+         "nearly sharp; the model is tied to the real code by exact (d,u,v) comparison in both build profiles and every "
+         "implementation answer is judged by a Python big-integer oracle (math.gcd, Bezout identity, range of the inverse).")
 LEVEL_NOTE = ("Trusted: Lean kernel (+propext, Classical.choice, Quot.sound); correspondence of the hand-written model to "
               "the Rust code is sampled by the differential harness, not proved; bnum operators and num_integer::gcd are "
-              "modelled as mathematical functions; Python integers in the oracle.")
+              "modelled as mathematical functions; Python integers in the oracle. No theorem is partial; between 64N-11 "
+              "and 64N-7 bits the absence of cofactor overflow is neither proved nor refuted (no panic observed).")
 TECHNIQUE = "Lean 4 proof about a hand model + differential correspondence check + spec oracle"
 
 WIDTHS16 = [0, 1, 2, 31, 32, 33, 63, 64, 65, 100, 127, 128, 129, 192, 256, 300, 448, 500, 512, 576, 640, 704, 768,
@@ -313,6 +317,23 @@ def cases(tier, rng, extended=False):
             a, b = b, a
         out.append(Case(f"gcd_ext {N} {a} {b}", o=False, profiles=["chk"], tag="oversize"))
         out.append(Case(f"gcd_big {N} {a} {b}", tag="oversize"))
+    # right at the boundary of the proved domain of no_panic_ext (64N-12 bits): both operands of exactly that width must
+    # pass in both profiles; the next widths (64N-11 .. 64N-6) are outside the proved domain: checked profile compared
+    # with the model only (a 250-bit pair for N = 4 is known to overflow, see corpus)
+    for i in range(150 * reps):
+        N = rng.choice([4, 8, 16])
+        W0 = MAXBITS[N]
+        sh = rng.choice(["random", "fib", "common", "hugeq", "pattern"])
+        a, b = make_pair(rng, sh, W0, W0, W0)
+        a |= 1 << (W0 - 1)
+        if sh != "hugeq":
+            b |= 1 << (W0 - 1)
+        out.extend(pair_cases(N, a, b, "boundary", full=False))
+        w1 = W0 + rng.randrange(1, 7)
+        a, b = rbits(rng, w1), rbits(rng, rng.choice([w1, w1, rng.randrange(w1 - 40, w1 + 1)]))
+        if i % 2:
+            a, b = b, a
+        out.append(Case(f"gcd_ext {N} {a} {b}", o=False, profiles=["chk"], tag="above-domain"))
     _load_traces(out)
     return out
 
